@@ -184,12 +184,91 @@ def aggGenesisDup (erc20s denoms : List Nat) : Bool := hasDup erc20s || hasDup d
 /-- rvesting `validatePerBlockReward` over well-formed coins: empty list or duplicate denomination is rejected -/
 def rewardInvalid (denoms : List Nat) : Bool := denoms.isEmpty || hasDup denoms
 
+
+/-! ### replicas: the step function takes ONLY (committed state, block)
+
+A node of the model is its committed state and nothing else: there is no place where process-local memory
+(a memo in a keeper, a cache, a counter) could live. `Machine.step` is the whole block execution
+(BeginBlock, every DeliverTx, EndBlock, Commit): it receives the committed state and the block and returns the
+new committed state and everything the node reports (codes, gas, data, events, app hash).
+A *discarded* execution (CheckTx, Simulate, a query, a run on a cache context that is dropped, a multi-message
+transaction that is rolled back) computes `step` and throws the result away. Replica histories: two nodes,
+operations `block` (both execute it), `fork` (node 2 becomes a fresh process opened on node 1's committed
+state), `discard₁ / discard₂` (a discarded execution on one node only). -/
+
+structure Machine (σ β ρ : Type) where
+  step : σ → β → σ × ρ
+
+/-- a node: committed state only -/
+structure Node (σ : Type) where
+  committed : σ
+
+namespace Machine
+variable {σ β ρ : Type}
+
+/-- executing a block: the node's new committed state and its reported result -/
+def exec (m : Machine σ β ρ) (n : Node σ) (b : β) : Node σ × ρ :=
+  let r := m.step n.committed b
+  ({ committed := r.1 }, r.2)
+
+/-- a discarded execution: the block is run, result and state are dropped -/
+def discard (m : Machine σ β ρ) (n : Node σ) (b : β) : Node σ :=
+  let _ := m.step n.committed b
+  n
+
+/-- a fresh process opened on the committed database of `n` -/
+def forkOf (n : Node σ) : Node σ := { committed := n.committed }
+end Machine
+
+inductive RepOp (β : Type) where
+  | block (b : β)       -- both nodes execute the block
+  | fork                -- node 2 := fresh fork of node 1
+  | discard₁ (b : β)    -- discarded execution on node 1 only
+  | discard₂ (b : β)    -- discarded execution on node 2 only
+
+/-- the pair of nodes after one replica operation, with the results of a `block` -/
+def repStep {σ β ρ : Type} (m : Machine σ β ρ) (p : Node σ × Node σ) : RepOp β → (Node σ × Node σ) × Option (ρ × ρ)
+  | .block b =>
+    let r1 := m.exec p.1 b
+    let r2 := m.exec p.2 b
+    ((r1.1, r2.1), some (r1.2, r2.2))
+  | .fork => ((p.1, Machine.forkOf p.1), none)
+  | .discard₁ b => ((m.discard p.1 b, p.2), none)
+  | .discard₂ b => ((p.1, m.discard p.2 b), none)
+
+/-- a replica history: final pair of nodes and the result pairs of all blocks, in order -/
+def repRun {σ β ρ : Type} (m : Machine σ β ρ) (p : Node σ × Node σ) : List (RepOp β) → (Node σ × Node σ) × List (ρ × ρ)
+  | [] => (p, [])
+  | o :: rest =>
+    let s := repStep m p o
+    let r := repRun m s.1 rest
+    (r.1, match s.2 with | some x => x :: r.2 | none => r.2)
+
+/-- COUNTER-MODEL (the memo of seed C14-4): a node that also carries process-local memory which a discarded
+    execution may change and `step` may read. committed = stored client height, memo = memoised height,
+    block = the header height of an update; an update is accepted iff it is above the height the node BELIEVES
+    (memo first). -/
+structure MemoNode where
+  committed : Nat
+  memo : Option Nat
+  deriving DecidableEq, Repr
+
+def memoBelief (n : MemoNode) : Nat := n.memo.getD n.committed
+
+/-- executing an update for real: accepted iff above the believed height; the memo is written through -/
+def memoExec (n : MemoNode) (h : Nat) : MemoNode × Bool :=
+  if h > memoBelief n then ({ committed := h, memo := some h }, true) else ({ n with memo := some (memoBelief n) }, false)
+
+/-- the same update on a discarded context: the committed state is restored, the memo is not -/
+def memoDiscard (n : MemoNode) (h : Nat) : MemoNode :=
+  { committed := n.committed, memo := (memoExec n h).1.memo }
+
 /-- discharge classes accepted for an inventoried site (reasons are in props/sites-C14.json) -/
 def classes : List String :=
   ["telemetry-only", "cli-or-query-only", "simulation-only", "test-support-only", "startup-configuration",
    "abigen-binding-unreachable", "hasher-pool", "vendored-ethash-pure-computation", "vendored-ethash-progress-logging",
    "vendored-ethash-mining-unreachable", "vendored-ethash-dataset-unreachable", "vendored-ethash-disk-cache-disabled",
-   "vendored-ethash-future-cache", "vendored-ethash-sealer-loop-idle", "sorted-before-use", "order-independent-body"]
+   "vendored-ethash-future-cache", "vendored-ethash-sealer-loop-idle", "sorted-before-use", "order-independent-body", "startup-wiring"]
 
 /-- theorems of `Proofs/C14.lean` that an inventoried site may name as its discharge -/
 def theoremNames : List String :=
